@@ -2,13 +2,16 @@ package main
 
 import (
 	"context"
+	"encoding/binary"
 	"fmt"
 	"math/rand"
+	"net"
 	"net/http"
 	"net/http/httptest"
 	"strconv"
 	"strings"
 	"sync"
+	"time"
 
 	"github.com/bolkedebruin/rdpgw/cmd/rdpgw/identity"
 	"github.com/bolkedebruin/rdpgw/cmd/rdpgw/protocol"
@@ -273,6 +276,119 @@ func streamC04(env *runEnv) {
 					tokip: issued, user: "bob", clientip: presenting, items: exchange(true, cc)}
 				env.count(fmt.Sprintf("c04.pair.same=%v.verify=%v", issued == presenting, verify))
 				emitPolicy(env, e, pc)
+			}
+		}
+	}
+}
+
+// ---------------------------------------------------------------- C04 at the gateway: both transports
+//
+// The real Gateway.HandleGatewayProtocol behind web.EnrichContext with the real
+// security.CheckSession around an always-allowing host check. The scripted cookie
+// check does what security.CheckPAACookie does on acceptance with the claims the
+// cookie text carries ("ok|user|host|ip"). For the legacy transport the two
+// requests of one tunnel may come from different addresses: the packets (and with
+// them the token) travel on the RDG_IN_DATA request.
+func init() { streams["c04gw"] = streamC04Gw }
+
+func streamC04Gw(env *runEnv) {
+	storeOnce.Do(func() {
+		web.InitStore([]byte("0123456789abcdef0123456789abcdef"), []byte("fedcba9876543210fedcba9876543210"), "cookie", 0)
+	})
+	securityMu.Lock()
+	defer securityMu.Unlock()
+	b := newTagBackend(nil)
+	defer b.close()
+	gw := &protocol.Gateway{TokenAuth: true}
+	gw.CheckPAACookie = func(ctx context.Context, c string) (bool, error) {
+		t, _ := ctx.Value(protocol.CtxTunnel).(*protocol.Tunnel)
+		p := strings.Split(c, "|")
+		if len(p) != 4 || p[0] != "ok" || t == nil {
+			return false, nil
+		}
+		t.User.SetUserName(p[1])
+		t.TargetServer = p[2]
+		t.RemoteAddr = p[3]
+		return true, nil
+	}
+	gw.CheckHost = security.CheckSession(func(ctx context.Context, h string) (bool, error) { return true, nil })
+	srv := httptest.NewServer(web.EnrichContext(http.HandlerFunc(gw.HandleGatewayProtocol)))
+	defer srv.Close()
+	g := &gwInstance{port: srv.Listener.Addr().(*net.TCPAddr).Port, exited: make(chan struct{})}
+	host, port := splitHostPort(b.addr)
+	addrs := []string{"192.0.2.7", "192.0.2.8", "2001:db8::1", "10.0.0.1", "10.0.0.12", ""}
+	n := 0
+	for _, verify := range []bool{true, false} {
+		security.VerifyClientIP = verify
+		for _, tokip := range addrs[:5] {
+			for _, present := range addrs {
+				for _, tr := range []string{"ws", "legacy-same", "legacy-out-other"} {
+					n++
+					if !env.thorough() && n%2 == 0 && tokip != present && tr == "ws" {
+						continue // the websocket cases with differing addresses are thinned in the quick tier
+					}
+					hdr := func(a string) map[string]string {
+						if a == "" {
+							return map[string]string{} // no header: the TCP peer (127.0.0.1) is the client
+						}
+						return map[string]string{"X-Forwarded-For": a + ", 198.51.100.1"}
+					}
+					id := fmt.Sprintf("{c04gw-%d}", n)
+					var c tclient
+					var err error
+					switch tr {
+					case "ws":
+						ws, st, _, e := wsDial(g, wsOpts{headers: hdr(present), connID: id})
+						if e != nil || st != 101 {
+							err = fmt.Errorf("ws %d %v", st, e)
+						} else {
+							c = ws
+						}
+					case "legacy-same":
+						c, err = legacyDial2(g, id, hdr(present), hdr(present))
+					default:
+						// the outbound request arrives from the address the token was issued to, the inbound
+						// request (which carries the token) from the presenting address
+						c, err = legacyDial2(g, id, hdr(tokip), hdr(present))
+					}
+					obs := "ERR"
+					if err == nil {
+						a0, _, _ := b.snapshot()
+						steps := [][]byte{
+							packet(ptHandshake, handshakeBody(1, 0, 0, 2)),
+							packet(ptTunnelCreate, tunnelCreateBody(0, "ok|bob|"+b.addr+"|"+tokip, true)),
+							packet(ptTunnelAuth, tunnelAuthBody("pc")),
+							packet(ptChannelCreate, channelCreateBody(host, port)),
+						}
+						var last []byte
+						for _, p := range steps {
+							c.send(p)
+							if tr != "ws" {
+								time.Sleep(15 * time.Millisecond)
+							}
+							m, e := c.recv(3 * time.Second)
+							if e != nil {
+								last = nil
+								break
+							}
+							last = m
+						}
+						time.Sleep(30 * time.Millisecond)
+						a1, _, _ := b.snapshot()
+						st := "none"
+						if len(last) >= 12 && int(last[0])|int(last[1])<<8 == 9 {
+							st = strconv.FormatUint(uint64(binary.LittleEndian.Uint32(last[8:12])), 10)
+						}
+						obs = fmt.Sprintf("channel=%s dials=%d", st, a1-a0)
+						c.close()
+					}
+					presenting := present
+					if present == "" {
+						presenting = "127.0.0.1"
+					}
+					env.count("c04gw." + tr)
+					env.emit("addrbind", b01(verify), tr, hx([]byte(tokip)), hx([]byte(presenting)), hx([]byte(b.addr)), obs)
+				}
 			}
 		}
 	}
